@@ -52,6 +52,7 @@ func (P *Prog) verifyWith(key string, c *Contract, opts VerifyOpts, solv *Solver
 	run := func(rank int) {
 		x := P.newExec(fn, key, c, rank)
 		x.solv = solv
+		x.solvRef = solv
 		x.pruneWithSolver = opts.Prune || c.Config["prune"] == "solver"
 		func() {
 			defer func() {
